@@ -1,11 +1,13 @@
-import MtailVerif.Proofs.ScopeNext
+import MtailVerif.Proofs.ScopeRegex
 /-! # C24 — invalid programs are rejected with a positioned error
 
     `Scope.check` (Model/Scope.lean) mirrors the checker's symbol handling; regular-expression
     syntax is an oracle.  Proved here: the checker never takes an error back, whatever it visits
     afterwards (`errors_never_retracted`), so one report suffices for rejection; a `next` that is not
     inside a decorator definition is reported for every program and every position it can stand at
-    (`next_outside_decorator_rejected`, a statement over all ASTs); and each of the other defect
+    (`next_outside_decorator_rejected`, a statement over all ASTs); so is a pattern written with
+    literals whose text is over the length limit or does not parse, wherever in the program it
+    stands (`bad_literal_regex_rejected`, also over all ASTs, decorator definitions included); and each of the other defect
     classes is reported by its clause whenever the walk reaches the offending node
     (`*_reported`: the lookup fails / the name is taken / the pattern is too long or does not parse /
     a declaration leaves its scope unused), each with the offending node's or declaration's own
@@ -24,6 +26,20 @@ theorem errors_never_retracted (cfg : Cfg) (n : Node) (s : St) : ∃ more, (walk
 theorem next_outside_decorator_rejected (cfg : Cfg) (prog : Node) (h : hasNextOutside prog = true) :
     check cfg prog ≠ [] := by
   have := next_fires cfg prog h {} rfl rfl
+  unfold check
+  intro he
+  rw [he] at this
+  simp at this
+
+/-- **regular expression over the length limit or not parseable**: for every program and every
+    place a pattern expression can stand — conditions, `=~` operands, constant definitions, builtin
+    arguments, decorator definitions and decorated blocks, nested to any depth, after any other
+    errors — a pattern written with literals (one literal or a concatenation of them) whose text is
+    longer than the limit, or that the regular-expression library refuses, makes the checker reject
+    the program.  (`cfg.groups` is the library's verdict, an oracle; the limit is a parameter.) -/
+theorem bad_literal_regex_rejected (cfg : Cfg) (prog : Node) (h : hasBadRegex cfg prog = true) :
+    check cfg prog ≠ [] := by
+  have := badRegex_fires cfg prog h {} rfl
   unfold check
   intro he
   rw [he] at this
@@ -108,6 +124,11 @@ def p0 : Pos := ⟨0, 0, 3⟩
 /-- `/x/ { next }` is rejected, with the position of `next` -/
 example : check cfg0 (.stmts (.cons (.cond (.un .match (.patexpr (.patlit [120] p0) []) p0 .unk)
     (.stmts (.cons (.next ⟨1, 2, 5⟩) .nil)) .nil) .nil)) = [⟨.nextOutside, some ⟨1, 2, 5⟩⟩] := by decide
+
+/-- an over-long literal in a condition deep inside a decorator definition is seen by `hasBadRegex` -/
+example : hasBadRegex { cfg0 with maxRegexLen := 2 } (.stmts (.cons (.decodecl "d" (.stmts (.cons (.cond
+    (.un .match (.patexpr (.patlit [120, 121, 122] p0) []) p0 .unk)
+    (.stmts (.cons (.next ⟨1, 2, 5⟩) .nil)) .nil) .nil)) p0) .nil)) = true := by decide
 
 /-- the same `next` inside a decorator definition is fine, and the decorated block sees `$0` -/
 example : check cfg0 (.stmts (.cons (.decodecl "d" (.stmts (.cons (.cond (.un .match (.patexpr (.patlit [120] p0) []) p0 .unk)
